@@ -23,7 +23,7 @@ TRUSTED = [
     "model: coq/Model/MessageM.v (Renderer, Message.to_wire, Rdataset.to_wire, _WireReader, find_rrset index, "
     "UpdateMessage._parse_rr_header, rcode/opcode packing) on top of coq/Model/NameM.v (tw_loop, ctable, relativize)",
     "RDATA is modelled as pieces (opaque octets / compressible name / non-compressible name); readers for "
-    "A NS CNAME SOA PTR MX TXT AAAA SRV RRSIG OPT TSIG and generic types; other per-type codecs are C02's",
+    "A NS CNAME SOA PTR MX TXT AAAA SRV RRSIG OPT TSIG, SPF NINFO AVC RESINFO WALLET AFSDB RT RP SSHFP TLSA SMIMEA CERT DNSKEY CDNSKEY OPENPGPKEY EUI48 EUI64 L32 L64 NID HINFO X25 (any class), KX PX DHCID NSAP (class IN) and generic types; other per-type codecs are C02's",
     "harness/msggen.py: builds implementation objects through the class constructors and converts parsed "
     "messages back through attribute access (never through to_wire/from_wire of the code under test)",
 ]
@@ -263,7 +263,7 @@ def expected_names(am, origin, padded):
             for rd in rs[6]:
                 out.append(rs[0])
                 rdclass = rs[1]
-                if rs[2] in g.NAME_FIELDS and (rdclass == g.IN or rs[2] != g.SRV):
+                if rs[2] in g.NAME_FIELDS and (rdclass == g.IN or rs[2] not in g.IN_ONLY_NAME_TYPES):
                     for p in rd:
                         if isinstance(p, list):
                             out.append(p[1])
